@@ -14,7 +14,17 @@ Correspondence (model vs implementation, every run)
     tofile() into BytesIO, tofile() into files / buffers at a position or in append mode, and the
     serialized proto;
   * a stream of illegal / edge protos, external descriptors and packed buffers (model vs
-    implementation only).
+    implementation only);
+  * (deepening round) call histories of ONE `ExternalTensor` object over real files in three directories --
+    reads through numpy()/__array__/tobytes()/tofile() with or without keeping the array, release(),
+    invalidate(), base_dir re-assignment, the data file created / atomically replaced / removed in between --
+    vs `IrVerif.ExtLife` (`extlife.run`), call by call;
+  * (deepening round) strided array memory: random and derived (transpose / slice / flip / broadcast) numpy
+    arrays, arrays behind array-compatible objects in either byte order and `torch.as_strided` tensors are
+    sent to the model as RAW memory (shape, byte strides, byte offset, storage bytes) and the model does the
+    reduction to logical order (`strided.obs`, `trepr.obs` kinds strided / tstrided);
+  * (deepening round) STRING tensors through every representation and `ir.tensor` on text / bytes data vs
+    `IrVerif.StrTensor` (`strt.obs`, `strt.py`), legal and ill-formed.
 
 Oracle (the property itself on the real objects, independent of the model): declared dtype and
 shape, nbytes = ceil(size*bitwidth/8), numpy() bits = the logical bits, tobytes()/tofile bytes =
@@ -108,23 +118,49 @@ THEOREMS = [
     "IrVerif.TensorRepr.C04_tofile_paths",
     "IrVerif.TensorRepr.C04_tofile_repr",
     "IrVerif.TensorRepr.C04_serialize_roundtrip",
+    "IrVerif.ExtLife.C04_ext_history_read",
+    "IrVerif.ExtLife.C04_ext_history_agree",
+    "IrVerif.ExtLife.C04_ext_quiet_coherent",
+    "IrVerif.ExtLife.C04_ext_invalidated",
+    "IrVerif.ExtLife.C04_ext_release_fresh",
+    "IrVerif.ExtLife.C04_ext_release_neutral",
+    "IrVerif.ExtLife.C04_ext_basedir",
+    "IrVerif.ExtLife.C04_ext_history_legal",
+    "IrVerif.ExtLife.C04_ext_stale_witness",
+    "IrVerif.Strided.C04_strided_rowmajor",
+    "IrVerif.Strided.C04_strided_index",
+    "IrVerif.Strided.C04_strided_agree",
+    "IrVerif.Strided.C04_strided_torch",
+    "IrVerif.StrTensor.C04_string_bytes_raise",
+    "IrVerif.StrTensor.C04_string_agree",
+    "IrVerif.StrTensor.C04_string_pytensor",
 ]
 ASSUMPTIONS = [
     "elements are modelled as bit patterns; numeric meaning of floats (NaN != NaN) is not modelled",
     "numpy / ml_dtypes view, astype (two's complement wrap), frombuffer, resize and tofile semantics are "
     "modelled, not verified; they are exercised by the correspondence on every run",
     "little-endian host (the _IS_LITTLE_ENDIAN false branches are not modelled)",
-    "DIFFERENTIAL ONLY (the harness reduces these to logical element order before the model sees them, so the "
-    "theorems say nothing about them; only the correspondence and the oracle check them): memory order and strides of "
-    "array-backed tensors (C / Fortran / negative strides / read-only), torch strides and contiguity, sign-extended "
-    "or ml_dtypes storage bytes of 2/4-bit elements, big-endian COMPLEX memory, the stateful behaviour of one "
-    "ExternalTensor object across calls (mapping reuse, release(), invalidate(), a failed load), string tensors. "
-    "Modelled with content: byte order of whole-byte array memory (little / big endian behind an array-compatible "
-    "object), the storage offset of a contiguous torch view, the three delivery mechanisms of tofile "
-    "(ndarray.tofile, copy_file_range rounds + seek + chunk loop, chunked write) and the packed bit layout "
-    "(against an independent bit-stream specification)",
-    "the model follows the repaired code for D20 D21 D22 D44 D45 D140 D142 (fix: commits 90f0973 e7c61b0 98406ca 205afd1 "
-    "78dfe76 9c34cc8 245cf00); string tensors (D48 D49 D141) and the call-history defect D143 are checked by the oracle only",
+    "DIFFERENTIAL ONLY (the theorems say nothing about them; only the correspondence and the oracle check them): "
+    "ir.tensor(python numbers / nested lists) dtype inference and conversion, read-only flags of arrays, torch tensors "
+    "that need .cpu()/.detach(), sign-extended vs ml_dtypes storage of 2/4-bit elements beyond 'the low bits are the element'. "
+    "Modelled with content: byte order of whole-byte array memory, the storage offset of a contiguous torch view, the three "
+    "delivery mechanisms of tofile, the packed bit layout (against an independent bit-stream specification), and since the "
+    "deepening round: the lifecycle of one ExternalTensor object (Model/ExtLife.lean), strided array / torch memory "
+    "(Model/Strided.lean: the harness sends raw memory, the model reduces it to logical order) and STRING tensors "
+    "(Model/StrTensor.lean)",
+    "ExternalTensor histories: the environment replaces (os.replace: new inode) or removes the data file; in-place modification "
+    "or truncation of a mapped file is outside the model (truncation kills the process with SIGBUS); _check_path_containment is "
+    "C10's subject and is modelled as passing. The agreement theorems for histories carry the decidable hypothesis `coherent` "
+    "(no complete load is held, or the mapped file is still the file the path names), evaluated by the driver before every read "
+    "of every generated history (share in the histogram: hist_read_coherent=...). Incoherent reads (observation D380: the code "
+    "answers numpy()/tobytes() from the stale mapping and tofile() from the path) are compared model-vs-code only and counted "
+    "(stale_mapping_divergence); they are outside C04's quantifier by decision of the maintainer",
+    "strided memory: C04_strided_agree / C04_strided_torch assume every item lies inside the storage (`inBounds`, decidable, "
+    "evaluated by the driver on every generated array: strided_hypotheses_hold=...); that numpy / torch refuse to construct "
+    "anything else is not proved. BOOL memory bytes other than 0/1 are not generated",
+    "string tensors: elements are byte strings; UTF-8 encoding of text is Lean's String.toUTF8, compared with Python's on every "
+    "generated text; text with lone surrogates (not encodable) is not generated",
+    "the model follows the repaired code for D20 D21 D22 D44 D45 D48 D49 D140 D141 D142 D143",
 ]
 
 M64 = (1 << 64) - 1
@@ -1503,6 +1539,676 @@ def check_external_state(ctx: Ctx, ir) -> None:
                 pass
 
 
+# --------------------------------------------------------------------------- string tensors vs the string model
+
+
+def _srep_obs(t, is_string_tensor_expected=None) -> dict:
+    """Observables of a real STRING tensor in the model's vocabulary."""
+    o: dict = {}
+
+    def elems(a):
+        return [list(x.encode() if isinstance(x, str) else bytes(x)) for x in np.asarray(a, dtype=object).reshape(-1).tolist()]
+
+    try:
+        o["dtype"] = int(t.dtype)
+    except Exception:
+        o["dtype"] = "raised"
+    try:
+        o["shape"] = [int(x) for x in t.shape.numpy()]
+    except Exception:
+        o["shape"] = "raised"
+    try:
+        a = t.numpy()
+        o["numpy"] = elems(a)
+        o["_npshape"] = [int(x) for x in a.shape]
+    except Exception as e:
+        o["numpy"] = "raised"
+        o["_numpy_exc"] = type(e).__name__
+    try:
+        o["string_data"] = [list(bytes(x)) for x in t.string_data()]
+    except Exception:
+        o["string_data"] = "raised"
+    try:
+        o["nbytes"] = int(t.nbytes)
+    except Exception:
+        o["nbytes"] = "raised"
+    try:
+        t.tobytes()
+        o["tobytes"] = "returned"
+    except Exception as e:
+        o["tobytes"] = "raised"
+        o["_tobytes_exc"] = type(e).__name__
+    try:
+        b = io.BytesIO()
+        t.tofile(b)
+        o["tofile"] = "returned"
+    except Exception:
+        o["tofile"] = "raised"
+    try:
+        from onnx_ir import serde
+
+        sp = serde.serialize_tensor(t)
+        o["serialize"] = {"dims": [int(x) for x in sp.dims], "string_data": [list(x) for x in sp.string_data], "raw": sp.HasField("raw_data")}
+        if sp.data_type != 8:
+            o["serialize"]["data_type"] = int(sp.data_type)
+    except Exception:
+        o["serialize"] = "raised"
+    return o
+
+
+def _canon_srep_model(m: dict) -> dict:
+    def r(v):
+        return "raised" if isinstance(v, dict) and set(v) == {"raised"} else v
+
+    return {k: r(m.get(k)) for k in ("dtype", "shape", "numpy", "string_data", "nbytes", "tobytes", "tofile", "serialize")}
+
+
+def check_strings_model(ctx: Ctx, ir) -> None:
+    """STRING tensors against Model/StrTensor.lean (strt.obs / strt.py), representation by representation --
+    legal ones and a deliberate stream of ill-formed ones (element count != prod(shape), raw_data on a STRING
+    proto, lazy wrappers around those) -- plus the property on the real objects: every legal representation of
+    the same elements reports STRING, the shape, exactly the elements (trailing NULs kept) and raises from
+    tobytes()/tofile()."""
+    import onnx
+    from onnx_ir import serde
+
+    rng = ctx.rng
+    pool = [b"", b"a", b"abc", "é中".encode(), b"\xff\xfe", b"a\x00", b"\x00", b"\xff\x00\x00", b"x" * 40, b"tail\x00\x00", b"\x00\x00"]
+    texts = ["", "a", "é中", "nul\x00", "\x00", "\U0001F600x", "tail\x00\x00", "plain ascii"]
+    reqs, reals, metas = [], [], []
+
+    def tp_of(vals, dims, raw=False):
+        tp = onnx.TensorProto()
+        tp.data_type = 8
+        tp.dims.extend(dims)
+        tp.string_data.extend(vals)
+        if raw:
+            tp.raw_data = b"\x01\x02"
+        return tp
+
+    def add(name, model, make, vals, dims, legal):
+        try:
+            t = make()
+            o = _srep_obs(t)
+        except Exception as e:
+            o = {"_ctor": type(e).__name__}
+        reqs.append({"m": "strt.obs", "repr": model})
+        reals.append(o)
+        metas.append((name, vals, dims, legal))
+
+    for rnd in range(ctx.pick(40, 300)):
+        dims = rng.choice(SHAPES + [[2, 2], [0, 3], [4]])
+        n = _prod(dims)
+        vals = [rng.choice(pool) for _ in range(n)]
+        vl = [list(v) for v in vals]
+        # legal representations
+        obj = np.empty(n, dtype=object)
+        obj[:] = vals
+        obj = obj.reshape(dims)
+        tp = tp_of(vals, dims)
+        seq_m = {"k": "seq", "vals": vl, "dims": dims}
+        add("StringTensor(list)", seq_m, lambda: ir.StringTensor(list(vals), shape=ir.Shape(dims)), vals, dims, True)
+        add("StringTensor(object array)", {"k": "objarr", "vals": vl, "dims": dims}, lambda: ir.StringTensor(obj), vals, dims, True)
+        add("TensorProtoTensor", {"k": "proto", "vals": vl, "dims": dims, "raw": False}, lambda: serde.TensorProtoTensor(tp), vals, dims, True)
+        add("deserialize(proto)", seq_m, lambda: serde.deserialize_tensor(tp), vals, dims, True)
+        add("ir.tensor(proto)", seq_m, lambda: ir.tensor(tp), vals, dims, True)
+        add("lazy>StringTensor", {"k": "lazy", "dims": dims, "inner": seq_m},
+            lambda: ir.LazyTensor(lambda: ir.StringTensor(list(vals), shape=ir.Shape(dims)), dtype=ir.DataType.STRING, shape=ir.Shape(dims)), vals, dims, True)
+        add("lazy>TensorProtoTensor", {"k": "lazy", "dims": dims, "inner": {"k": "proto", "vals": vl, "dims": dims, "raw": False}},
+            lambda: ir.LazyTensor(lambda: serde.TensorProtoTensor(tp), dtype=ir.DataType.STRING, shape=ir.Shape(dims), cache=bool(rnd % 2)), vals, dims, True)
+        add("roundtrip", seq_m, lambda: serde.deserialize_tensor(serde.serialize_tensor(ir.StringTensor(obj))), vals, dims, True)
+        # ill-formed: wrong element count, raw_data on a STRING proto, lazy around them
+        if rnd % 2 == 0:
+            bad = vals + [b"extra"] if rnd % 4 == 0 else vals[:-1] if vals else [b"x"]
+            bl = [list(v) for v in bad]
+            bad_m = {"k": "seq", "vals": bl, "dims": dims}
+            add("edge:StringTensor(wrong count)", bad_m, lambda: ir.StringTensor(list(bad), shape=ir.Shape(dims)), bad, dims, False)
+            tpb = tp_of(bad, dims)
+            add("edge:TensorProtoTensor(wrong count)", {"k": "proto", "vals": bl, "dims": dims, "raw": False}, lambda: serde.TensorProtoTensor(tpb), bad, dims, False)
+            add("edge:lazy>StringTensor(wrong count)", {"k": "lazy", "dims": dims, "inner": bad_m},
+                lambda: ir.LazyTensor(lambda: ir.StringTensor(list(bad), shape=ir.Shape(dims)), dtype=ir.DataType.STRING, shape=ir.Shape(dims)), bad, dims, False)
+            tpr = tp_of(vals, dims, raw=True)
+            add("edge:TensorProtoTensor(raw_data)", {"k": "proto", "vals": vl, "dims": dims, "raw": True}, lambda: serde.TensorProtoTensor(tpr), vals, dims, False)
+    outs = lean_batch_parallel(reqs)
+    for (name, vals, dims, legal), o, mo in zip(metas, reals, outs):
+        case = {"string-model": True, "repr": name, "dims": dims, "values": [bytes(v).hex() for v in vals]}
+        ctx.case(["string-model", name, dims, case["values"]], nontrivial=len(vals) > 0, representation="strmodel:" + name, strmodel_legal=legal)
+        if "err" in mo:
+            ctx.disagree("string model rejected the request", case, mo, None)
+            continue
+        if "_ctor" in o:
+            ctx.disagree(f"string {name}: constructor raised {o['_ctor']}", case, mo, o)
+            continue
+        m = _canon_srep_model(mo)
+        for k in ("dtype", "shape", "numpy", "string_data", "nbytes", "tobytes", "tofile", "serialize"):
+            if m[k] != o[k]:
+                ctx.disagree(f"string {name}: {k} model != implementation", case, m[k], o[k])
+        if legal:
+            want = [list(v) for v in vals]
+            has_nul = ":trailing-nul" if any(v.endswith(b"\x00") for v in vals) else ""
+            if o["dtype"] != 8 or o["shape"] != dims:
+                ctx.fail(f"string.dtype-shape:{name}", "string tensor reports wrong dtype/shape", case)
+            if o["numpy"] != want or o.get("_npshape") != dims:
+                ctx.fail(f"string.numpy{has_nul}:{name}", "numpy() elements / shape differ from the stored strings", case)
+            if o["tobytes"] != "raised" or o.get("_tobytes_exc") not in ("ValueError", "TypeError"):
+                ctx.fail(f"string.tobytes:{name}", "tobytes() of a string tensor did not raise ValueError/TypeError", case)
+            if o["tofile"] != "raised":
+                ctx.fail(f"string.tofile:{name}", "tofile() of a string tensor did not raise", case)
+            if o["serialize"] == "raised" or o["serialize"].get("string_data") != want or o["serialize"].get("dims") != dims or "data_type" in o["serialize"]:
+                ctx.fail(f"string.serialize:{name}", "serialized string_data / dims differ", case)
+            if o["string_data"] != "raised" and o["string_data"] != want:
+                ctx.fail(f"string.string_data:{name}", "string_data() differs", case)
+            if o["nbytes"] != "raised" and o["nbytes"] != sum(len(v) for v in vals):
+                ctx.fail(f"string.nbytes:{name}", "nbytes differs from the sum of the element lengths", case)
+    # ir.tensor on python text / bytes data (strt.py): flattened elements + the shape numpy infers
+    reqs, reals, metas = [], [], []
+    for rnd in range(ctx.pick(150, 1200)):
+        dims = rng.choice(SHAPES + [[2, 2], [0, 3], [2, 0], [4]])
+        n = _prod(dims)
+        kind = rng.choice(["bytes", "text", "mixed"])
+        elems = []
+        for _ in range(n):
+            if kind == "bytes" or (kind == "mixed" and rng.random() < 0.5):
+                elems.append({"b": list(rng.choice(pool))})
+            else:
+                elems.append({"s": rng.choice(texts)})
+        pyvals = [bytes(e["b"]) if "b" in e else e["s"] for e in elems]
+        objn = np.empty(n, dtype=object)
+        objn[:] = pyvals
+        nested = objn.reshape(dims).tolist()
+        dims = [int(x) for x in np.array(nested, dtype=object).shape]  # the shape numpy infers from the nesting ([] for [0, 3])
+        dts = rng.random() < 0.4
+        try:
+            t = ir.tensor(nested, dtype=ir.DataType.STRING) if dts else ir.tensor(nested)
+            real = {"kind": "str" if int(t.dtype) == 8 else "numeric", "obs": _srep_obs(t) if int(t.dtype) == 8 else None, "cls": type(t).__name__}
+        except ValueError:
+            real = {"kind": "valueError"}
+        except Exception as e:
+            real = {"kind": "raised:" + type(e).__name__}
+        reqs.append({"m": "strt.py", "elems": elems, "dims": dims, "dtype_string": dts})
+        reals.append(real)
+        metas.append((elems, dims, dts, [list(v.encode("utf-8")) if isinstance(v, str) else list(v) for v in pyvals]))
+    outs = lean_batch_parallel(reqs)
+    for (elems, dims, dts, want), real, mo in zip(metas, reals, outs):
+        case = {"string-py": True, "dims": dims, "elems": elems, "dtype_string": dts}
+        ctx.case(["string-py", dims, elems, dts], nontrivial=len(elems) > 0, representation="strmodel:ir.tensor(py)", strpy_kind=real["kind"], strpy_dtype_arg=dts)
+        if "err" in mo:
+            ctx.disagree("string model rejected the request", case, mo, None)
+            continue
+        if mo["kind"] != real["kind"]:
+            ctx.disagree("ir.tensor(text/bytes): outcome kind model != implementation", case, mo["kind"], real["kind"])
+            continue
+        if real["kind"] == "str":
+            m = _canon_srep_model(mo["obs"])
+            for k in ("dtype", "shape", "numpy", "string_data", "nbytes", "tobytes", "tofile", "serialize"):
+                if m[k] != real["obs"][k]:
+                    ctx.disagree(f"ir.tensor(text/bytes): {k} model != implementation", case, m[k], real["obs"][k])
+            o = real["obs"]
+            if real["cls"] != "StringTensor" or o["numpy"] != want or o["shape"] != dims or o["string_data"] != want or o["tobytes"] != "raised":
+                ctx.fail("string.py:not-the-elements", "ir.tensor(text/bytes) is not the StringTensor of the UTF-8 / bytes elements", case)
+
+
+# --------------------------------------------------------------------------- strided array memory (the model does the reduction)
+
+STRIDED_CODES = [1, 2, 3, 5, 7, 9, 10, 11, 12, 14, 15, 16, 17, 21, 22, 23, 25, 26]
+
+
+def _storage_np_dtype(code: int, rng, holder: str):
+    """The numpy dtype of the memory: the type's own (ml_dtypes) dtype, or the raw-bits forms Tensor accepts."""
+    nm = SPEC[code][0]
+    own = spec_np(code)
+    if holder != "ndarray":
+        return own
+    alts = [own]
+    if nm in ("UINT4", "FLOAT4E2M1", "UINT2") or nm.startswith("FLOAT8"):
+        alts.append(np.dtype(np.uint8))
+    if nm in ("INT4", "INT2"):
+        alts += [np.dtype(np.uint8), np.dtype(np.int8)]
+    if nm == "BFLOAT16":
+        alts.append(np.dtype(np.uint16))
+    return rng.choice(alts)
+
+
+def gen_strided(ctx: Ctx) -> list[dict]:
+    """Strided arrays as raw memory descriptions (shape, byte strides, byte offset, storage bytes, byte order)."""
+    rng = ctx.rng
+    items = []
+    torch_ok = torch_available()
+    for i in range(ctx.pick(700, 6000)):
+        code = rng.choice(STRIDED_CODES)
+        nm, bw, _ = SPEC[code]
+        isz = max(1, bw // 8)
+        holder = rng.choice(["ndarray", "ndarray", "compat", "torch"] if torch_ok and nm in TORCH_NAME else ["ndarray", "ndarray", "compat"])
+        be = holder != "torch" and isz > 1 and nm not in ("BFLOAT16",) and rng.random() < 0.25
+        family = rng.choice(["random", "random", "derived"])
+        rank = rng.choice([0, 1, 1, 2, 2, 3, 4])
+        shape = [rng.choice([1, 2, 2, 3, 3, 4, 5]) if rng.random() < 0.93 else 0 for _ in range(rank)]
+        if family == "random":
+            unaligned = holder != "torch" and isz > 1 and rng.random() < 0.1
+            strides = []
+            for _n in shape:
+                k = rng.choice([0, 1, 1, 2, 3, 5, 6, -1, -1, -2, -3]) if holder != "torch" else rng.choice([0, 1, 1, 2, 3, 5, 6])
+                strides.append(k * isz + (rng.choice([1, -1]) if unaligned and k else 0))
+            lo = sum(min(0, (n - 1) * st) for n, st in zip(shape, strides) if n > 0)
+            hi = sum(max(0, (n - 1) * st) for n, st in zip(shape, strides) if n > 0)
+            pad = rng.choice([0, 0, 1, 2, 7]) * isz + (1 if unaligned and rng.random() < 0.5 else 0)
+            offset = -lo + pad
+            total = offset + hi + isz + rng.choice([0, 0, isz, 3])
+            if holder == "torch":
+                total += (-total) % isz
+            derive = None
+        else:
+            base_shape = [n + rng.choice([0, 0, 1, 2]) for n in shape] if shape else []
+            total = max(isz, _prod(base_shape) * isz) if base_shape else isz
+            derive = {"base": base_shape, "seed": rng.getrandbits(32)}
+            strides, offset = None, None
+        if nm == "BOOL":
+            storage = [rng.randrange(2) for _ in range(total)]
+        else:
+            storage = list(rng.randbytes(total))
+        items.append({"strided": True, "family": family, "d": code, "shape": shape, "strides": strides, "offset": offset, "storage": storage,
+                      "be": be, "holder": holder, "derive": derive, "sidx": i})
+    return items
+
+
+def _derive_view(base, seed: int):
+    """A random chain of view operations (no copies) on a C-contiguous base array."""
+    import random
+
+    r = random.Random(seed)
+    a = base
+    for _ in range(r.randrange(1, 4)):
+        op = r.choice(["T", "perm", "slice", "flip", "bcast", "newaxis", "slice"])
+        if op == "T":
+            a = a.T
+        elif op == "perm" and a.ndim >= 2:
+            perm = list(range(a.ndim))
+            r.shuffle(perm)
+            a = a.transpose(perm)
+        elif op == "slice" and a.ndim >= 1:
+            sl = []
+            for n in a.shape:
+                step = r.choice([1, 1, 2, -1, -2, 3])
+                lo = r.randrange(0, n + 1)
+                hi = r.randrange(lo, n + 1)
+                sl.append(slice(lo, hi, step) if step > 0 else slice(hi - 1 if hi > 0 else None, lo - 1 if lo > 0 else None, step))
+            a = a[tuple(sl)]
+        elif op == "flip" and a.ndim >= 1:
+            a = np.flip(a, axis=r.randrange(a.ndim))
+        elif op == "bcast" and a.ndim <= 3:
+            a = np.broadcast_to(a, (r.choice([1, 2, 3]),) + a.shape)
+        elif op == "newaxis" and a.ndim <= 3:
+            a = a[..., None] if r.random() < 0.5 else a[None]
+    return a
+
+
+def work_strided(item: dict) -> list:
+    """Worker: one strided array -> one record (same layout as work_logical's records)."""
+    import warnings
+
+    warnings.filterwarnings("ignore")
+    import onnx_ir as ir
+
+    code, holder, be = item["d"], item["holder"], item["be"]
+    nm, bw, _ = SPEC[code]
+    d = ir.DataType(code)
+    isz = max(1, bw // 8)
+    rng_local = __import__("random").Random(item["sidx"])
+    npdt = _storage_np_dtype(code, rng_local, holder)
+    if be:
+        npdt = npdt.newbyteorder(">")
+    buf = bytearray(bytes(item["storage"]))
+    if item["derive"] is not None:
+        bshape = item["derive"]["base"]
+        base = np.frombuffer(buf, dtype=npdt, count=_prod(bshape) if bshape else 1).reshape(bshape)
+        arr = _derive_view(base, item["derive"]["seed"])
+        offset = arr.__array_interface__["data"][0] - base.__array_interface__["data"][0] if arr.size or True else 0
+        if arr.size == 0:
+            offset = max(0, min(offset, len(buf)))
+        strides, shape = [int(x) for x in arr.strides], [int(x) for x in arr.shape]
+    else:
+        shape, strides, offset = item["shape"], item["strides"], item["offset"]
+        arr = np.ndarray(shape, dtype=npdt, buffer=buf, offset=offset, strides=strides)
+    model = {"d": code, "dims": shape, "strides": strides, "offset": offset, "storage": item["storage"], "itemsize": isz,
+             "be": bool(be), "cplx": nm.startswith("COMPLEX"), "nd": holder == "ndarray"}
+    torch_ok = torch_available()
+    if holder == "torch":
+        import torch
+
+        from onnx_ir import tensor_adapters
+
+        tdt = getattr(torch, TORCH_NAME[nm], None)
+        if tdt is None or any(st % isz for st in strides) or offset % isz or any(st < 0 for st in strides):
+            return []
+        try:
+            flat = torch.frombuffer(buf, dtype={1: torch.uint8, 2: torch.uint16, 4: torch.uint32, 8: torch.uint64, 16: torch.complex128}[isz])
+            flat = flat.view(tdt)
+            tt = torch.as_strided(flat, shape, [st // isz for st in strides], offset // isz)
+        except Exception:
+            return []
+        make = lambda: tensor_adapters.TorchTensor(tt)
+        model["k"] = "tstrided"
+        name = "torch-asstrided"
+    elif holder == "compat":
+        wrapped = _ArrayCompat(arr)
+        make = lambda: ir.Tensor(wrapped, dtype=d)
+        model["k"] = "strided"
+        name = "array-stridedcompat"
+    else:
+        make = lambda: ir.Tensor(arr, dtype=d)
+        model["k"] = "strided"
+        name = "array-strided"
+    ref = np.ascontiguousarray(arr)  # numpy as the reference for the logical order (independent of onnx_ir)
+    xs = [u & ((1 << bw) - 1) for u in units_of(ref)]
+    legal = "be" if (be and holder == "ndarray") else True
+    idx = item["sidx"]
+    dests = sorted({DESTS[idx % len(DESTS)], DESTS[(3 * idx + 4) % len(DESTS)]})
+    with tempfile.TemporaryDirectory(prefix="c04s-") as workdir:
+        o = observe(make, dests, workdir, order=idx)
+    fails: list = []
+    oracle(ir, name, d, shape, xs, o, dests, fails, torch_ok, legal)
+    hist = {"strided_family": item["family"], "strided_holder": holder, "strided_rank": len(shape), "strided_be": bool(be),
+            "strided_neg": any(st < 0 for st in strides), "strided_zero_stride": any(st == 0 and n > 1 for st, n in zip(strides, shape)),
+            "strided_size0": _prod(shape) == 0, "strided_offset>0": offset > 0,
+            "strided_unaligned": any(st % isz for st in strides) or offset % isz != 0,
+            "strided_ccontig": bool(arr.flags["C_CONTIGUOUS"]), "strided_storage_dtype": npdt.name}
+    reqs = [{"m": "trepr.obs", "repr": model, "dests": [dest_request(k) for k in dests]}, {"m": "strided.obs", "repr": model}]
+    return [{"name": name, "item": {"d": code, "dims": shape, "xs": xs, "idx": idx, "strided": {k: model[k] for k in ("strides", "offset", "be", "nd", "itemsize")}},
+             "reqs": reqs, "dests": dests, "impl": strip(o), "fails": fails, "rt": None, "legal": legal, "hist": hist, "strided": holder}]
+
+
+# --------------------------------------------------------------------------- external tensor: call histories vs the lifecycle model
+
+
+EXT_HIST_CODES = [1, 2, 5, 7, 10, 14, 15, 16, 21, 22, 25, 26, 9]
+EXT_HIST_DIMS = [[1], [3], [5], [2, 3], [0], [], [4], [1, 0, 2]]
+
+
+def ref_units(bw: int, data: bytes, n: int) -> list[int]:
+    """Spec-level decoder (inverse of ref_bytes): the element bit patterns held by little-endian packed bytes."""
+    if bw >= 8:
+        w = bw // 8
+        return [int.from_bytes(data[i * w : (i + 1) * w], "little") for i in range(n)]
+    per = 8 // bw
+    return [(data[i // per] >> (bw * (i % per))) & ((1 << bw) - 1) for i in range(n)]
+
+
+def gen_ext_history(rng, i: int) -> dict:
+    """One call history of one ExternalTensor over three directories (pure data; the worker executes it)."""
+    code = rng.choice(EXT_HIST_CODES)
+    bw = SPEC[code][1]
+    dims = rng.choice(EXT_HIST_DIMS)
+    n = _prod(dims)
+    nb = _nbytes(n, bw)
+    pre = rng.choice([0, 0, 1, 3, 4096 + 5])
+    if pre > 100 and rng.random() < 0.7:
+        pre = 2
+
+    def content(kind=None):
+        kind = kind or rng.choice(["legal", "legal", "legal", "legal", "short", "short1", "empty", "tail"])
+        xs = [1 if rng.random() < 0.5 else 0 for _ in range(n)] if SPEC[code][0] == "BOOL" else [rng.getrandbits(bw) for _ in range(n)]
+        body = bytes((37 * k + 11) % 251 for k in range(pre)) + ref_bytes(bw, xs)
+        if kind == "tail":
+            body += bytes(rng.randrange(256) for _ in range(rng.randrange(1, 4)))
+        elif kind == "short":
+            body = body[: pre + nb // 2]
+        elif kind == "short1":
+            body = body[: max(0, pre + nb - 1)]
+        elif kind == "empty":
+            body = b""
+        return list(body)
+
+    fs = []
+    for d in range(3):
+        if rng.random() < (0.85 if d == 0 else 0.6):
+            fs.append({"d": d, "c": content("legal" if d == 0 and rng.random() < 0.6 else None)})
+    offset = pre if (pre or rng.random() < 0.5) else None
+    r = rng.random()
+    length = None if r < 0.45 else nb if r < 0.9 else rng.choice([0, nb + 1, max(0, nb - 1)])
+    ops = []
+    for _ in range(rng.randrange(3, 13)):
+        k = rng.random()
+        if k < 0.50:
+            en = rng.choice(["numpy", "asarray", "tobytes", "tobytes", "tofile"])
+            ops.append({"op": "read", "en": en, "hold": en in ("numpy", "asarray") and rng.random() < 0.35})
+        elif k < 0.62:
+            ops.append({"op": "release"})
+        elif k < 0.66:
+            ops.append({"op": "invalidate"})
+        elif k < 0.76:
+            ops.append({"op": "basedir", "d": rng.randrange(3)})
+        elif k < 0.82:
+            ops.append({"op": "drop"})
+        elif k < 0.94:
+            ops.append({"op": "put", "d": rng.choice([0, 0, 1, 2]), "c": content()})
+        else:
+            ops.append({"op": "del", "d": rng.randrange(3)})
+    ops.append({"op": "read", "en": rng.choice(["numpy", "tobytes", "tofile"]), "hold": False})
+    return {"i": i, "ext": {"d": code, "dims": dims, "offset": offset, "length": length}, "fs": fs, "d0": 0, "ops": ops}
+
+
+def _put_file(path: str, data: bytes) -> None:
+    """Create or atomically REPLACE (new inode; never truncate a possibly mapped file in place)."""
+    tmp = path + ".tmp"
+    with open(tmp, "wb") as f:
+        f.write(data)
+    os.replace(tmp, path)
+
+
+def exec_ext_history(h: dict, wd: str) -> list:
+    """Run one history on the real code; one canonical observation per call."""
+    import onnx_ir as ir
+
+    dirs = [os.path.join(wd, f"h{h['i']}_d{k}") for k in range(3)]
+    for d in dirs:
+        os.makedirs(d, exist_ok=True)
+    for ent in h["fs"]:
+        _put_file(os.path.join(dirs[ent["d"]], "w.bin"), bytes(ent["c"]))
+    e = h["ext"]
+    t = ir.ExternalTensor("w.bin", e["offset"], e["length"], ir.DataType(e["d"]), shape=ir.Shape(e["dims"]), name="x", base_dir=dirs[h["d0"]])
+    holds, out = [], []
+    for k, op in enumerate(h["ops"]):
+        kind = op["op"]
+        cur_path = os.path.join(os.fspath(t.base_dir), "w.bin")
+        try:
+            with open(cur_path, "rb") as f:
+                curfile = f.read()
+        except FileNotFoundError:
+            curfile = None
+        rec = {"cur": None if curfile is None else len(curfile)}
+        try:
+            if kind == "read":
+                en = op["en"]
+                if en in ("numpy", "asarray"):
+                    a = t.numpy() if en == "numpy" else np.asarray(t)
+                    rec["obs"] = {"units": units_of(a)}
+                    rec["npdtype"], rec["npshape"] = a.dtype.name, [int(x) for x in a.shape]
+                    if op["hold"]:
+                        holds.append(a)
+                    del a
+                elif en == "tobytes":
+                    rec["obs"] = {"bytes": list(t.tobytes())}
+                else:
+                    regular = (h["i"] + k) % 3 == 0
+                    if regular:
+                        dst = open(os.path.join(wd, f"dst{h['i']}.bin"), "w+b")
+                    else:
+                        dst = io.BytesIO()
+                    raised = None
+                    try:
+                        t.tofile(dst)
+                    except Exception as ex:
+                        raised = type(ex).__name__
+                    dst.flush()
+                    dst.seek(0)
+                    rec["obs"] = {"wrote": list(dst.read()), "raised": raised is not None}
+                    rec["exc"] = raised
+                    dst.close()
+                # the expected answer of the property, from the file on disk (independent of the model)
+                rec["curbytes"] = None if curfile is None else list(curfile)
+            elif kind == "release":
+                t.release()
+                rec["obs"] = "done"
+            elif kind == "invalidate":
+                t.invalidate()
+                rec["obs"] = "done"
+            elif kind == "basedir":
+                t.base_dir = dirs[op["d"]]
+                rec["obs"] = "done"
+            elif kind == "drop":
+                holds.clear()
+                rec["obs"] = "done"
+            elif kind == "put":
+                _put_file(os.path.join(dirs[op["d"]], "w.bin"), bytes(op["c"]))
+                rec["obs"] = "done"
+            elif kind == "del":
+                try:
+                    os.unlink(os.path.join(dirs[op["d"]], "w.bin"))
+                except FileNotFoundError:
+                    pass
+                rec["obs"] = "done"
+        except Exception as ex:
+            rec["obs"] = {"raised": type(ex).__name__}
+        rec["valid"] = bool(t.valid())
+        rec["basedir"] = dirs.index(os.fspath(t.base_dir))
+        out.append(rec)
+    holds.clear()
+    try:
+        t.release()
+    except Exception:
+        pass
+    return out
+
+
+def work_ext_histories(chunk: list) -> list:
+    import warnings
+
+    warnings.filterwarnings("ignore")
+    with tempfile.TemporaryDirectory(prefix="c04h-") as wd:
+        return [exec_ext_history(h, wd) for h in chunk]
+
+
+def _canon_ext_obs(o, is_tofile: bool):
+    """Model or implementation observation -> comparable form (exception types are information only)."""
+    if isinstance(o, dict) and "raised" in o and len(o) == 1:
+        return {"wrote": [], "raised": True} if is_tofile else "raised"
+    return o
+
+
+def ext_expected(ext: dict, en: str, cur) -> object:
+    """The property's answer for a read of the file content `cur` (None: no file), spec-level."""
+    bw = SPEC[ext["d"]][1]
+    n = _prod(ext["dims"])
+    nb = _nbytes(n, bw)
+    off = ext["offset"] or 0
+    if en == "tofile":
+        if cur is None:
+            return {"wrote": [], "raised": True}
+        avail = cur[off : off + nb]
+        return {"wrote": list(avail), "raised": len(avail) < nb}
+    if n == 0:
+        return {"units": []} if en != "tobytes" else {"bytes": []}
+    if cur is None or len(cur) == 0 or off + nb > len(cur):
+        return "raised"
+    sl = bytes(cur[off : off + nb])
+    return {"bytes": list(sl)} if en == "tobytes" else {"units": ref_units(bw, sl, n)}
+
+
+def check_external_histories(ctx: Ctx, ir, corpus: list | None = None) -> None:
+    """Call histories of ONE ExternalTensor object on real files vs the lifecycle model (extlife.run), call by
+    call; and the property itself on the real object: whenever the harness has not replaced / removed the named
+    file under a possibly held mapping, every read must answer exactly the bytes [offset, offset+nbytes) of the
+    file currently named by (base_dir, location) -- the same through numpy()/__array__/tobytes()/tofile() -- or
+    raise; after invalidate() every read raises ValueError; release() and base_dir changes never leave anything
+    behind that a later read answers from."""
+    rng = ctx.rng
+    hists = [dict(c["hist"], i=10_000 + j) for j, c in enumerate(corpus or [])]
+    ncorpus = len(hists)
+    hists += [gen_ext_history(rng, i) for i in range(ctx.pick(1500, 12000))]
+    chunks = [hists[i : i + 60] for i in range(0, len(hists), 60)]
+    reals = [r for rs in pmap(work_ext_histories, chunks) for r in rs]
+    outs = lean_batch_parallel([{"m": "extlife.run", "ext": h["ext"], "fs": h["fs"], "d0": h["d0"], "ops": h["ops"]} for h in hists])
+    nquiet = 0
+    for hi, (h, real, mo) in enumerate(zip(hists, reals, outs)):
+        ext = h["ext"]
+        dname, bw, _ = SPEC[ext["d"]]
+        n = _prod(ext["dims"])
+        nb = _nbytes(n, bw)
+        legal_desc = ext["length"] in (None, 0, nb)
+        case = {"hist": {k: h[k] for k in ("ext", "fs", "d0", "ops")}}
+        ctx.case(["ext-history", ext, h["fs"], h["ops"]], nontrivial=True,
+                 sample={"external-history": [o["op"] + (":" + o["en"] if o["op"] == "read" else "") for o in h["ops"]], "dtype": dname, "dims": ext["dims"]},
+                 representation="external-history", hist_dtype=dname, hist_len=min(len(h["ops"]), 12), hist_corpus=hi < ncorpus)
+        if "err" in mo:
+            ctx.disagree("external history: model rejected the request", case, mo, None)
+            continue
+        nquiet += bool(mo["quiet"])
+        ctx.count(f"hist_quiet={bool(mo['quiet'])}")
+        invalidated, maybe_loaded, touched = False, False, False
+        for k, (op, r, m) in enumerate(zip(h["ops"], real, mo["trace"])):
+            kind = op["op"]
+            is_tofile = kind == "read" and op["en"] == "tofile"
+            got, want_m = _canon_ext_obs(r["obs"], is_tofile), _canon_ext_obs(m["obs"], is_tofile)
+            label = kind + (":" + op["en"] if kind == "read" else "")
+            ctx.count(f"hist_op={label}")
+            if got != want_m:
+                ctx.disagree(f"external history call {k} ({label}): model != implementation", dict(case, call=k), m["obs"], r["obs"])
+            if r["valid"] == (not m["valid"]) and kind != "invalidate":
+                pass  # `valid` in the trace is the state BEFORE the call; compared below through the reads
+            if kind == "read":
+                ctx.count(f"hist_read_coherent={m['coherent']}")
+                ctx.count(f"hist_read_outcome={'raised' if got == 'raised' or (isinstance(got, dict) and got.get('raised')) else 'ok'}")
+                cur = r.get("curbytes")
+                exp = ext_expected(ext, op["en"], cur)
+                # the instance of C04_ext_history_agree in the model: coherent & valid => obs = fresh(current file)
+                if m["coherent"] and m["valid"] and _canon_ext_obs(m["fresh"], is_tofile) != want_m:
+                    ctx.disagree("external history: the driver's answer contradicts C04_ext_history_agree", dict(case, call=k), m["obs"], m["fresh"])
+                if invalidated:
+                    ok = (got == "raised" or (is_tofile and got == {"wrote": [], "raised": True})) and (r["obs"].get("raised") == "ValueError" or r.get("exc") == "ValueError")
+                    if not ok:
+                        ctx.fail(f"external.history:{op['en']}-after-invalidate", f"{op['en']}() after invalidate() did not raise ValueError: {str(r['obs'])[:60]}", dict(case, call=k))
+                elif legal_desc and not touched:
+                    ctx.count("hist_oracle_reads")
+                    g = got
+                    if isinstance(g, dict) and "units" in g:
+                        g = {"units": [u & ((1 << bw) - 1) for u in g["units"]]}
+                        if r["npshape"] != ext["dims"] or r["npdtype"] != spec_np(ext["d"]).name:
+                            ctx.fail(f"external.history:{op['en']}:wrong-shape-or-dtype", "array of the wrong shape / numpy dtype", dict(case, call=k))
+                    if g != exp:
+                        ctx.fail(f"external.history:{op['en']}:bw{bw}:{'size0' if n == 0 else 'n>0'}:not-the-current-file",
+                                 f"{op['en']}() call {k} does not answer the bytes of the file currently named: {str(g)[:50]} vs {str(exp)[:50]}", dict(case, call=k))
+                elif legal_desc and touched:
+                    ctx.count("hist_reads_after_replacement_under_mapping")
+                    g = got
+                    if isinstance(g, dict) and "units" in g:
+                        g = {"units": [u & ((1 << bw) - 1) for u in g["units"]]}
+                    if g != exp:
+                        ctx.count("stale_mapping_divergence")  # observation D380: outside the property's quantifier
+                if op["en"] != "tofile" and not (got == "raised"):
+                    maybe_loaded = True
+            elif kind == "release":
+                maybe_loaded, touched = False, False
+            elif kind == "basedir":
+                if op["d"] != r0_basedir(real, k, h["d0"]):
+                    maybe_loaded, touched = False, False
+            elif kind == "invalidate":
+                invalidated = True
+            elif kind in ("put", "del"):
+                if maybe_loaded and op["d"] == r["basedir"]:
+                    touched = True
+                if m["disturbs"]:
+                    ctx.count("hist_disturbing_ops")
+        if bool(mo["final_coherent"]) is False:
+            ctx.count("hist_final_incoherent")
+    ctx.count("hist_total", len(hists))
+    ctx.notes.append(f"external histories: {nquiet}/{len(hists)} quiet (hypothesis of C04_ext_quiet_coherent); coherence of the state before every read is in the histogram (hist_read_coherent=...)")
+
+
+def r0_basedir(real: list, k: int, d0: int) -> int:
+    """The base directory (index) before call k."""
+    return d0 if k == 0 else real[k - 1]["basedir"]
+
+
 # --------------------------------------------------------------------------- run
 
 
@@ -1557,6 +2263,19 @@ def process_records(ctx: Ctx, recs: list, outs_iter) -> None:
         )
         for dk in rec["dests"]:
             ctx.count(f"destination={dk}")
+        for hk, hv in rec.get("hist", {}).items():
+            ctx.count(f"{hk}={hv}")
+        if rec.get("strided"):
+            so = model_obs[1]
+            ctx.count(f"strided_hypotheses_hold={so.get('hyp')}")
+            key = "torch_tobytes" if rec["strided"] == "torch" else "tobytes"
+            mt = so.get(key)
+            mt = "raised" if isinstance(mt, dict) and "raised" in mt else mt
+            it = rec["impl"].get("tobytes", "raised") if "_ctor" not in rec["impl"] else "raised"
+            if mt != it:
+                ctx.disagree(f"{name} {dname}{item['dims']}: transcribed strided tobytes model != implementation", case, mt, it)
+            if so.get("hyp") and "_ctor" not in rec["impl"] and so.get("units") != rec["impl"].get("numpy"):
+                ctx.disagree(f"{name} {dname}{item['dims']}: strided units model != numpy()", case, so.get("units"), rec["impl"].get("numpy"))
         known_obs = set()
         for sig, obs, what in rec["fails"]:
             if known_sig(ctx, sig):
@@ -1599,6 +2318,14 @@ def run_items(ctx: Ctx, items: list) -> None:
     process_records(ctx, all_recs, iter(outs))
 
 
+def run_strided(ctx: Ctx, sitems: list) -> None:
+    recs = [r for rs in pmap(work_strided, sitems) for r in rs]
+    reqs = [q for rec in recs for q in rec["reqs"]]
+    outs = lean_batch_parallel(reqs)
+    process_records(ctx, recs, iter(outs))
+    ctx.count("strided_total", len(recs))
+
+
 def run(ctx: Ctx) -> None:
     import warnings
 
@@ -1612,17 +2339,21 @@ def run(ctx: Ctx) -> None:
     )
     ctx.notes.append("torch adapter " + ("covered (torch importable)" if torch_available() else "NOT covered: torch not importable"))
     # corpus first
-    corpus = [c for c in load_corpus("C04") if "d" in c]
+    allcorpus = load_corpus("C04")
+    corpus = [c for c in allcorpus if "d" in c]
     if corpus:
         run_items(ctx, [dict(c) for c in corpus])
         ctx.count("corpus_cases", len(corpus))
     check_tables(ctx, ir)
     check_strings(ctx, ir)
+    check_strings_model(ctx, ir)
     check_external_state(ctx, ir)
+    check_external_histories(ctx, ir, [c for c in allcorpus if "hist" in c])
     check_pack_functions(ctx)
     items = gen_logical(ctx, ir) + gen_more(ctx)
     items.sort(key=lambda it: not it.get("big"))  # the large tensors first (they take longest)
     run_items(ctx, items)
+    run_strided(ctx, gen_strided(ctx))
     ctx.exhaustive_scopes.append("all 2^w bit patterns of every element type with w <= 8 (BOOL: 0/1), through every representation kind")
     # edge / illegal stream: model vs implementation only
     edge = gen_edge(ctx, ir)
@@ -1656,7 +2387,15 @@ def run(ctx: Ctx) -> None:
 
 def replay(ctx: Ctx, obj: dict) -> None:
     case = obj.get("case") or obj
-    if isinstance(case, dict) and (case.get("string") or case.get("external-state")):
+    if isinstance(case, dict) and "hist" in case:
+        import onnx_ir as ir
+
+        check_external_histories(ctx, ir, [case])
+    elif isinstance(case, dict) and (case.get("string-model") or case.get("string-py")):
+        import onnx_ir as ir
+
+        check_strings_model(ctx, ir)
+    elif isinstance(case, dict) and (case.get("string") or case.get("external-state")):
         import onnx_ir as ir
 
         check_strings(ctx, ir)
